@@ -25,9 +25,9 @@ type pathSet struct {
 }
 
 type loopCtx struct {
-	info   *types.Info
-	ivar   types.Object
-	bound  string // canonical text of the bound expression ("" if constant/none)
+	info     *types.Info
+	ivar     types.Object
+	bound    string // canonical text of the bound expression ("" if constant/none)
 	boundObj types.Object
 }
 
